@@ -108,6 +108,14 @@ func c29Apply(h nethttp.Header, spec c29Spec) {
 	}
 }
 
+// c29Expected is what the propagator injects for a context carrying this spec (whether or not the code under
+// test actually asked it to)
+func c29Expected(spec c29Spec) []c29Entry {
+	own := make(nethttp.Header)
+	c29Apply(own, spec)
+	return c29Snapshot(own)
+}
+
 func (p *c29Injector) Inject(ctx context.Context, h nethttp.Header) error {
 	call, ok := ctx.Value(c29SpecKey{}).(c29Call)
 	if !ok {
@@ -418,9 +426,7 @@ func TestVerifC29(t *testing.T) {
 		c29WaitFor(5*time.Second, func() bool { return rec.count() >= expect })
 		for _, s := range sents {
 			o := c29Out{Group: g.Name, Part: "batchings", Comp: s.comp, ReqMD: s.reqMD, Pos: s.pos, Spec: s.spec, ID: s.id}
-			inj.mu.Lock()
-			o.Injected = inj.injected[ids[s.spec]]
-			inj.mu.Unlock()
+			o.Injected = c29Expected(g.Specs[s.spec])
 			capt.mu.Lock()
 			if cm := capt.msgs[ids[s.spec]]; cm != nil {
 				o.Wire = c29MDEntries(cm.GetMetadata())
@@ -472,9 +478,7 @@ func TestVerifC29(t *testing.T) {
 		c29WaitFor(5*time.Second, func() bool { return rec.count() >= expect })
 		for _, s := range e2es {
 			o := c29Out{Group: g.Name, Part: s.part, Spec: s.spec, ID: s.id}
-			inj.mu.Lock()
-			o.Injected = inj.injected[s.id]
-			inj.mu.Unlock()
+			o.Injected = c29Expected(g.Specs[s.spec])
 			if chain, ok := rec.get(s.id); ok {
 				o.Chain = chain
 			} else {
@@ -488,9 +492,7 @@ func TestVerifC29(t *testing.T) {
 			o := c29Out{Group: g.Name, Part: "ask", Spec: i, ID: id}
 			resp, err := direct.RemoteAsk(cctx, from, recAddr, &testpb.Reply{Content: id}, 3*time.Second)
 			expect++
-			inj.mu.Lock()
-			o.Injected = inj.injected[id]
-			inj.mu.Unlock()
+			o.Injected = c29Expected(sp)
 			if err != nil {
 				o.Err = "RemoteAsk: " + err.Error()
 			} else if rr, ok := resp.(*testpb.Reply); ok {
@@ -513,9 +515,7 @@ func TestVerifC29(t *testing.T) {
 			o := c29Out{Group: g.Name, Part: "ask-preattached", Spec: i, ID: id}
 			resp, err := direct.RemoteAsk(cctx, from, recAddr, &testpb.Reply{Content: id}, 3*time.Second)
 			expect++
-			inj.mu.Lock()
-			o.Injected = inj.injected[id]
-			inj.mu.Unlock()
+			o.Injected = c29Expected(sp)
 			if err != nil {
 				o.Err = "RemoteAsk: " + err.Error()
 			} else if rr, ok := resp.(*testpb.Reply); ok {
@@ -540,6 +540,9 @@ func TestVerifC29(t *testing.T) {
 						id1 = "ask|" + id1
 					}
 					id2 := fmt.Sprintf("%s.h2.%s.%s.%d", g.Name, hop1, mode, i)
+					if mode == "ask" {
+						id2 = "ask|" + id2 // the leaf replies to these
+					}
 					spec2 := g.Specs[(i+1)%n2]
 					relay.mu.Lock()
 					relay.plans[id1] = c29Plan{id2: id2, spec: spec2, mode: mode}
@@ -573,9 +576,7 @@ func TestVerifC29(t *testing.T) {
 							o.Err = "not delivered to the leaf"
 						}
 					}
-					inj.mu.Lock()
-					o.Injected = inj.injected[id2]
-					inj.mu.Unlock()
+					o.Injected = c29Expected(spec2)
 					w.put(o)
 				}
 			}
